@@ -116,12 +116,15 @@ func lSub(S uint64, P []byte) string {
 
 type obs struct {
 	w      int
+	S      uint64 // the request: start revision and prefix
+	P      []byte
 	status *uint64
 	sublen *uint64
 	got    []ev
 	hasGot bool
 	closed *bool
 	quiet  bool
+	wire   bool // read off the etcd wire format (one PUT for create and update): compared modulo that in Coq
 }
 
 func optN(p *uint64) string {
@@ -141,7 +144,7 @@ func (s *script) obs(o obs) {
 	if o.hasGot {
 		g = lib.Some(coqGot(o.got))
 	}
-	s.steps = append(s.steps, "(RObs "+lib.App("mkObs", lib.Nat(o.w), optN(o.status), optN(o.sublen), g, optB(o.closed), lib.Bool(o.quiet))+")")
+	s.steps = append(s.steps, "(RObs "+lib.App("mkObs", lib.Nat(o.w), lib.N(o.S), lib.Bytes(o.P), optN(o.status), optN(o.sublen), g, optB(o.closed), lib.Bool(o.quiet), lib.Bool(o.wire))+")")
 	st := "-"
 	if o.status != nil {
 		st = fmt.Sprint(*o.status)
@@ -224,6 +227,20 @@ func (c *coll) Add(x lib.Case)         { c.cases = append(c.cases, x) }
 func (c *coll) Len() int               { return len(c.cases) }
 func (c *coll) Fail(f lib.ImplFailure) { c.fails = append(c.fails, f) }
 
+// invalidCases counts the cases outside c05_validb (cache size 0, ring case with non-increasing revisions): the
+// generators never produce one; the Coq side counts such a case as a disagreement.
+func invalidCases(c *coll) int {
+	n := 0
+	for _, x := range c.cases {
+		if v, ok := x.JSON.(map[string]interface{}); ok {
+			if inv, ok := v["invalid"].(bool); ok && inv {
+				n++
+			}
+		}
+	}
+	return n
+}
+
 const perShard = 120
 
 func main() {
@@ -277,6 +294,7 @@ func main() {
 		sh, sc = sh+h, sc+c
 	}
 	bh, bc := bkStress(light, scratch, 64, 3*sd)
+	w.Stats.Extra["invalid_cases"] = invalidCases(light) + invalidCases(heavy)
 	w.Stats.Extra["ring_stress"] = map[string]int{"find_events_calls": sc, "calls_returning_events": sh,
 		"backend_watches": bc, "backend_watches_with_catch_up": bh}
 	// heavy cases go to positions 0, perShard, 2*perShard, ...
